@@ -24,13 +24,13 @@ LEVEL = "proof"
 JUDGE_VARS = 21
 OPNAME = {"E": "new_eq", "A": "new_conj", "O": "new_disj", "M": "new_at_most_one", "X": "new_exct_one",
           "C": "new_clause", "V": "new_var", "P": "propagate"}
-EXTRACT = ("From Coq Require Import Extraction ExtrOcamlBasic.\nFrom ORatio Require Import smt.SatEnc.\n"
-           "Extraction Language OCaml.\nSet Extraction Optimize.\nExtraction \"satenc_model.ml\" x_step init_state.\n")
+EXTRACT = ("From Coq Require Import Extraction ExtrOcamlBasic.\nFrom ORatio Require Import smt.SatEnc smt.Ov smt.SatKeys.\n"
+           "Extraction Language OCaml.\nSet Extraction Optimize.\nExtraction \"satenc_model.ml\" x_step init_state str_key str_ov_key.\n")
 
 
 def build():
     hexe, hlog = vlib.cxx_build("h_satenc", "h_satenc.cpp", vlib.SMT_SRC, vlib.SMT_INC)
-    oexe, olog = vlib.ocaml_build("satenc", ["smt/SatEnc.vo"], EXTRACT, [("satenc_io.ml", None), ("satenc_main.ml", None)])
+    oexe, olog = vlib.ocaml_build("satenc", ["smt/SatEnc.vo", "smt/Ov.vo", "smt/SatKeys.vo"], EXTRACT, [("satenc_io.ml", None), ("satenc_main.ml", None)])
     return hexe, hlog, oexe, olog
 
 
@@ -337,7 +337,8 @@ class Campaign:
             "oracle/satenc_*.ml, tools/satenc_gen.py",
             "Section hypotheses of proofs/SatEnc_Proofs.v: std::sort returns a permutation of its input (sortv) / a permutation sorted by lit::operator< (sortl); "
             "ceil(sqrt((double)n)) lies in [2, n) for n >= 4 (proved for the integer ceiling root used by the extracted model)",
-            "expression-cache keys are modelled structurally (list of literals) instead of as printed strings; the differential compares the printed keys",
+            "expression-cache keys: the model keys the cache structurally; the printers of the C++ key strings are modelled (smt/SatKeys.v) and PROVED injective "
+            "(C13_key_injective, C13_lookup_by_printed_key), and the differential compares the C++ key strings with the extracted printer's output",
         ]
         ctx.assumptions += [
             "tie bound: argument lists handed to new_conj/new_disj/new_clause have fewer than 16 elements or pairwise distinct variables "
